@@ -475,6 +475,9 @@ class TabularRoundTrip(BoundedCheck):
                 m[c][:] = values_before[c]
             # from_dataframe round trip on the data columns
             res.cover('from_dataframe')
+            # (a value that is missing in the model - NaN - is a value like any other: it comes back as NaN)
+            keep_x = m['X'].copy()
+            m['X'][0] = float('nan')
             data = m.to_dataframe(status=False, iterations=False)
             data = data[[c for c in data.columns if c in ('Y', 'X')]]
             m3 = M.from_dataframe(data)
@@ -483,6 +486,7 @@ class TabularRoundTrip(BoundedCheck):
             for c in ('Y', 'X'):
                 if not eq_arr(m3[c], m[c]):
                     bad('from_dataframe reproduces every value', 'c19.from_dataframe-values', m[c].tolist(), m3[c].tolist(), 'values')
+            m['X'][:] = keep_x
             return out
         if case['kind'] == 'linker':
             res.cover('linker')
